@@ -36,8 +36,8 @@ ASSUMPTIONS = [
     "NumPy scalars and all-numeric sequences are compared by value, rng generators / loggers / summary writers by kind only, NaN == NaN",
     "dict / attribute order and array memory layout are not part of structural equality; aliasing between members is not compared",
 ]
-BUDGET = {"quick": {"soft_s": 100}, "thorough": {"soft_s": 560}}
-MIN_EVALUATIONS = {"quick": 1200, "thorough": 4000}
+BUDGET = {"quick": {"soft_s": 75}, "thorough": {"soft_s": 540}}
+MIN_EVALUATIONS = {"quick": 800, "thorough": 3000}
 REQUIRED_COUNTERS = ["eval:roundtrip_differs", "eval:cross_store_differs", "eval:fixed_point_differs"]
 EXHAUSTIVE = {"quick": False, "thorough": False}
 
@@ -182,8 +182,8 @@ def _suite(ctx, idx, g, cfg, fields):
         if zs in loaded and ds_ in loaded:
             _judge(ctx, loaded[zs], loaded[ds_], "loaded", "cross_store_differs", dict(fields, store="both"), "zip result vs dir result")
         # second generation (alternate the store so both are exercised over the run)
-        st2 = zs if (idx % 2 == 0 and zs in loaded) or ds_ not in loaded else ds_
-        if st2 in loaded:
+        st2 = zs if (idx % 4 < 2 and zs in loaded) or ds_ not in loaded else ds_
+        if st2 in loaded and not (cfg.get("gen2_every_other") and idx % 2):
             f = dict(fields, store=st2.replace("auto_", ""))
             p2 = _target(base, st2, pk, "gen2_" + st2)
             if _save(ctx, loaded[st2], p2, st2, "w", comp, f, "save_gen2"):
@@ -312,7 +312,8 @@ def run_case(spec, idx, ctx):
         v = sg.build_kind(spec["vkind"], rng)
         g = sg.place(v, spec["placement"], rng)
         fields = {"case_kind": "matrix", "vkind": spec["vkind"], "vclass": spec["vkind"].split(":")[0], "placement": spec["placement"]}
-        cfg = {"compression": COMPRESSION[idx % 11], "pathkind": "Path" if idx % 2 else "str", "mode": "w"}
+        # quick tier: the second generation of a matrix case is run for every other case (the same kind is hit through its other placements)
+        cfg = {"compression": COMPRESSION[idx % 11], "pathkind": "Path" if idx % 2 else "str", "mode": "w", "gen2_every_other": ctx.tier == "quick"}
     elif kind == "name":
         g = _name_case(ctx, spec, rng)
         fields = {"case_kind": "name", "carrier": spec["carrier"]}
